@@ -1,0 +1,39 @@
+// Copyright 2026 The Go Authors. All rights reserved.
+// Use of this source code is governed by a BSD-style
+// license that can be found in the LICENSE file.
+
+//go:build verif
+
+// Package verifhook carries the instrumentation points used by the external
+// verification harness. It is only active under the "verif" build tag; without
+// the tag every call site compiles to nothing.
+package verifhook
+
+import "sync/atomic"
+
+// Enabled reports whether the hooks are compiled in.
+const Enabled = true
+
+// Func is the signature of an installed hook: an event identifier, two scalar
+// observations (flag values, lengths, nil-ness, field numbers) and an
+// identity (an address used only for comparison).
+type Func func(ev int, a, b uintptr, id uintptr)
+
+var fn atomic.Pointer[Func]
+
+// Set installs f as the hook; nil removes it.
+func Set(f Func) {
+	if f == nil {
+		fn.Store(nil)
+		return
+	}
+	fn.Store(&f)
+}
+
+// Ev reports an event to the installed hook, if any. A hook may block,
+// which is how the harness gates goroutines at protocol steps.
+func Ev(ev int, a, b uintptr, id uintptr) {
+	if f := fn.Load(); f != nil {
+		(*f)(ev, a, b, id)
+	}
+}
